@@ -62,7 +62,7 @@ func (c *Ctx) addrPath(v ssa.Value, d int) string {
 	case *ssa.Parameter:
 		return typeName(x.Type())
 	case *ssa.FreeVar:
-		return "free:" + x.Name()
+		return "free:" + c.freeVarName(x)
 	case *ssa.Global:
 		if x.Pkg != nil && x.Pkg.Pkg.Path() == sexpPath {
 			return "global:sexp." + x.Name()
@@ -131,9 +131,9 @@ func (c *Ctx) term(v ssa.Value, d int) string {
 	case *ssa.Const:
 		return constStr(x)
 	case *ssa.Parameter:
-		return "$" + x.Name()
+		return "$" + c.paramName(x)
 	case *ssa.FreeVar:
-		return "free:" + x.Name()
+		return "free:" + c.freeVarName(x)
 	case *ssa.Global:
 		return c.addrPath(x, d)
 	case *ssa.Alloc:
@@ -408,4 +408,66 @@ func resolveLocal(v ssa.Value) ssa.Value {
 		}
 	}
 	return v
+}
+
+// Parameter names in terms. The rules were written against the parameter names of the tree they were developed on;
+// renaming a parameter is not a change of behaviour, so a parameter is rendered by the name recorded for its
+// position in frozenParams (paramnames_gen.go, regenerated only deliberately with -genparams) and by its current
+// name only when the function or the position is not in the table (a new function, a changed signature).
+func (c *Ctx) paramName(p *ssa.Parameter) string {
+	f := p.Parent()
+	if f != nil {
+		if names, ok := frozenParams[c.Name(f)]; ok && len(names) == len(f.Params) {
+			for i, q := range f.Params {
+				if q == p {
+					return names[i]
+				}
+			}
+		}
+	}
+	return p.Name()
+}
+
+func (c *Ctx) freeVarName(v *ssa.FreeVar) string {
+	f := v.Parent()
+	if f != nil {
+		if names, ok := frozenParams[c.Name(f)+"#free"]; ok && len(names) == len(f.FreeVars) {
+			for i, q := range f.FreeVars {
+				if q == v {
+					return names[i]
+				}
+			}
+		}
+	}
+	return v.Name()
+}
+
+func genParamNames(c *Ctx) {
+	fmt.Println("// Code generated by otrcheck -genparams; parameter names of the tree the rules were written against. DO NOT EDIT.")
+	fmt.Println()
+	fmt.Println("package main")
+	fmt.Println()
+	fmt.Println("var frozenParams = map[string][]string{")
+	var lines []string
+	for _, f := range c.FuncSeq {
+		if len(f.Params) > 0 {
+			var n []string
+			for _, p := range f.Params {
+				n = append(n, fmt.Sprintf("%q", p.Name()))
+			}
+			lines = append(lines, fmt.Sprintf("\t%q: {%s},", c.Name(f), strings.Join(n, ", ")))
+		}
+		if len(f.FreeVars) > 0 {
+			var n []string
+			for _, p := range f.FreeVars {
+				n = append(n, fmt.Sprintf("%q", p.Name()))
+			}
+			lines = append(lines, fmt.Sprintf("\t%q: {%s},", c.Name(f)+"#free", strings.Join(n, ", ")))
+		}
+	}
+	sort.Strings(lines)
+	for _, l := range lines {
+		fmt.Println(l)
+	}
+	fmt.Println("}")
 }
